@@ -63,4 +63,35 @@ META = {
   "note": "Whether a callback fault fired is recorded by the harness instrumentation; structural faults are judged by the reference model.",
   "technique": "fault enumeration over generated scenarios (rapid) with fired-fault oracle",
  },
+
+ "C10": {
+  "text": "Metamorphic: one generated component set (populations with ties, Primary/unnamed/qualifier attributes, holders that are their own candidates; node-family graphs; a user definition scanner rejecting drawn components under drawn per-goroutine yields) is started 6 times (thorough 16) with independently drawn registration and registry-enumeration orders (explicit permuter through the verif hook, plus the runtime's own order); outcomes and every untied point must agree, tied points must stay inside the model's tied set.",
+  "design_ref": "DESIGN.md section 4, C10",
+  "note": "The Go scheduler and Go map order inside the container are sampled by repetition, not enumerated.",
+  "technique": "metamorphic property-based testing (rapid): repeated starts under drawn orders/schedules must agree",
+ },
+ "C11": {
+  "text": "Metamorphic over struct shapes: a generated flat leaf list and a random re-nesting of the same leaves into anonymous by-value run-time structs (depth<=5) are registered side by side with a recording custom-tag processor (tag + extract handler); leaves must be processed identically and as expected, sentinels of untagged / unexported / foreign-tagged leaves must survive bit-for-bit, and the recorder must receive exactly the custom-tagged leaves with value and arguments. Static fixtures cover embedded types with unexported names.",
+  "design_ref": "DESIGN.md section 4, C11",
+  "note": "reflect.StructOf cannot embed under an unexported name; unexported leaves are pre-filled through unsafe.",
+  "technique": "metamorphic property-based testing (rapid) over run-time built struct types with frame-condition sentinels",
+ },
+ "C13": {
+  "text": "Generated applications with 0-6 runners over the three ordering classes (ties, extreme Orders, lazy runners, runners whose own initialisation fails), for each case one choice 'no failure | runner j fails'; the shared event log must show every runner once after all initialisation, in contract order, and with a failing runner exactly the prefix up to it with Run returning an error.",
+  "design_ref": "DESIGN.md section 4, C13",
+  "note": "Failing position is drawn per case (each position reachable), not exhaustively enumerated per case.",
+  "technique": "property-based testing (rapid) with injected runner faults; event-log oracle",
+ },
+ "C14": {
+  "text": "The harness owns the schedule of the concurrent Close calls: each of 0-12 generated closers (some failing, some lazy) blocks on its own gate, App.Close runs in a goroutine, gates are opened one by one in a drawn order; before every opening App.Close must still be running, afterwards every closer was called exactly once and had returned before App.Close did.",
+  "design_ref": "DESIGN.md section 4, C14",
+  "note": "A sequential implementation is not rejected; the 10 s bound only applies once all gates are open.",
+  "technique": "property-based testing (rapid) with harness-owned schedule (gated closers)",
+ },
+ "C19": {
+  "text": "Faithful part: tags rendered from generated structures (value with balanced mixed bracket groups, repeated / case-variant argument names, flags, empty lists) are parsed by the real NewProperty and compared with the structure; end-to-end on run-time built structs for the required=false rule and the prop shorthand split. Totality: hostile-alphabet and raw-byte strings through NewProperty and the three built-in tag scanners (rapid; thorough adds coverage-guided native fuzzing seeded with every tag literal of the repository's tests).",
+  "design_ref": "DESIGN.md section 4, C19",
+  "note": "For unbalanced strings only no-panic and the required=false rule are asserted.",
+  "technique": "property-based round-trip testing (rapid) + native go fuzzing with semantic oracle in the target",
+ },
 }
